@@ -3,60 +3,94 @@
 #include <boost/config.hpp>
 #include "../vmodel_base.hpp"
 #include <cstdint>
+#ifndef VMODEL_BITSET_WORDS
+#define VMODEL_BITSET_WORDS 1
+#endif
 namespace boost {
-// one 64-bit block; sizes above 64 trip verif_assert 8051
+// Bounded model of boost::dynamic_bitset<>: VMODEL_BITSET_WORDS 64-bit blocks (default 1); sizes above the
+// capacity trip verif_assert 8051.  Same observable semantics as boost for the operations yomm2 uses
+// (constructor from an unsigned long initialises the first block only, operator< compares from the most
+// significant bit for equal sizes).
 template<class Block = unsigned long, class Alloc = std::allocator<Block>>
 class dynamic_bitset {
   public:
     using size_type = std::size_t; using block_type = Block;
     static constexpr size_type npos = static_cast<size_type>(-1);
+    static constexpr int NW = VMODEL_BITSET_WORDS;
+    static constexpr size_type CAPBITS = 64 * NW;
     class reference {
         dynamic_bitset& b_; size_type i_;
       public:
         reference(dynamic_bitset& b, size_type i) : b_(b), i_(i) {}
-        operator bool() const { return (b_.w_ >> i_) & 1; }
-        reference& operator=(bool v) { if (v) b_.w_ |= (std::uint64_t(1) << i_); else b_.w_ &= ~(std::uint64_t(1) << i_); return *this; }
+        operator bool() const { return b_.get_(i_); }
+        reference& operator=(bool v) { b_.put_(i_, v); return *this; }
         reference& operator=(const reference& o) { return *this = bool(o); }
         bool operator~() const { return !bool(*this); }
     };
-    dynamic_bitset() : w_(0), n_(0) {}
-    explicit dynamic_bitset(size_type n, unsigned long v = 0) : w_(0), n_(0) { resize(n); w_ = v & mask_(); }
+    dynamic_bitset() : n_(0) { zero_(); }
+    explicit dynamic_bitset(size_type n, unsigned long v = 0) : n_(0) { zero_(); resize(n); w_[0] = v; trim_(); }
     size_type size() const { return n_; } bool empty() const { return n_ == 0; }
     void resize(size_type n, bool v = false) {
-        verif_assert(n <= 64, 8051); __CPROVER_assume(n <= 64);
-        if (v && n > n_) w_ |= (mk_(n) & ~mk_(n_));
-        n_ = n; w_ &= mask_();
+        verif_assert(n <= CAPBITS, 8051); __CPROVER_assume(n <= CAPBITS);
+        size_type old = n_;
+        n_ = n;
+        if (v) for (size_type i = old; i < n && i < CAPBITS; ++i) put_(i, true);
+        trim_();
     }
-    void clear() { n_ = 0; w_ = 0; }
-    bool operator[](size_type i) const { return (w_ >> i) & 1; }
+    void clear() { n_ = 0; zero_(); }
+    bool operator[](size_type i) const { return get_(i); }
     reference operator[](size_type i) { return reference(*this, i); }
-    bool test(size_type i) const { return (w_ >> i) & 1; }
-    dynamic_bitset& set(size_type i, bool v = true) { reference(*this, i) = v; return *this; }
-    dynamic_bitset& set() { w_ = mask_(); return *this; }
-    dynamic_bitset& reset() { w_ = 0; return *this; }
-    dynamic_bitset& flip() { w_ = ~w_ & mask_(); return *this; }
-    bool any() const { return w_ != 0; } bool none() const { return w_ == 0; }
-    size_type count() const { size_type c = 0; for (size_type i = 0; i < n_; ++i) c += (w_ >> i) & 1; return c; }
-    size_type find_first() const { for (size_type i = 0; i < n_; ++i) if ((w_ >> i) & 1) return i; return npos; }
+    bool test(size_type i) const { return get_(i); }
+    dynamic_bitset& set(size_type i, bool v = true) { put_(i, v); return *this; }
+    dynamic_bitset& set() { for (int k = 0; k < NW; ++k) w_[k] = ~std::uint64_t(0); trim_(); return *this; }
+    dynamic_bitset& reset() { zero_(); return *this; }
+    dynamic_bitset& flip() { for (int k = 0; k < NW; ++k) w_[k] = ~w_[k]; trim_(); return *this; }
+    bool any() const { for (int k = 0; k < NW; ++k) if (w_[k]) return true; return false; }
+    bool none() const { return !any(); }
+    size_type count() const { size_type c = 0; for (size_type i = 0; i < CAPBITS; ++i) if (i < n_ && get_(i)) ++c; return c; }
+    size_type find_first() const { for (size_type i = 0; i < CAPBITS; ++i) if (i < n_ && get_(i)) return i; return npos; }
     dynamic_bitset operator~() const { dynamic_bitset r(*this); r.flip(); return r; }
-    dynamic_bitset& operator&=(const dynamic_bitset& o) { w_ &= o.w_; return *this; }
-    dynamic_bitset& operator|=(const dynamic_bitset& o) { w_ |= o.w_; return *this; }
+    dynamic_bitset& operator&=(const dynamic_bitset& o) { for (int k = 0; k < NW; ++k) w_[k] &= o.w_[k]; return *this; }
+    dynamic_bitset& operator|=(const dynamic_bitset& o) { for (int k = 0; k < NW; ++k) w_[k] |= o.w_[k]; return *this; }
     friend dynamic_bitset operator&(const dynamic_bitset& a, const dynamic_bitset& b) { dynamic_bitset r(a); r &= b; return r; }
     friend dynamic_bitset operator|(const dynamic_bitset& a, const dynamic_bitset& b) { dynamic_bitset r(a); r |= b; return r; }
-    friend bool operator==(const dynamic_bitset& a, const dynamic_bitset& b) { return a.n_ == b.n_ && a.w_ == b.w_; }
+    friend bool operator==(const dynamic_bitset& a, const dynamic_bitset& b) {
+        if (a.n_ != b.n_) return false;
+        for (int k = 0; k < NW; ++k) if (a.w_[k] != b.w_[k]) return false;
+        return true;
+    }
     friend bool operator!=(const dynamic_bitset& a, const dynamic_bitset& b) { return !(a == b); }
-    // boost 1.83: sizes first when they differ? No: compares blocks from the top for equal sizes.
     friend bool operator<(const dynamic_bitset& a, const dynamic_bitset& b) {
-        if (a.n_ == b.n_) return a.w_ < b.w_;
-        // boost compares bit by bit from the most significant bit of each
+        if (a.n_ == b.n_) {
+            for (int k = NW - 1; k >= 0; --k) if (a.w_[k] != b.w_[k]) return a.w_[k] < b.w_[k];
+            return false;
+        }
+        // different sizes: bit by bit from the most significant bit of each
         size_type as = a.n_, bs = b.n_;
-        while (as > 0 && bs > 0) { --as; --bs; bool x = (a.w_ >> as) & 1, y = (b.w_ >> bs) & 1; if (x != y) return !x; }
+        for (size_type step = 0; step < CAPBITS; ++step) {
+            if (as == 0 || bs == 0) break;
+            --as; --bs;
+            bool x = a.get_(as), y = b.get_(bs);
+            if (x != y) return !x;
+        }
         return as == 0 && bs != 0;
     }
   private:
-    static std::uint64_t mk_(size_type n) { return n >= 64 ? ~std::uint64_t(0) : ((std::uint64_t(1) << n) - 1); }
-    std::uint64_t mask_() const { return mk_(n_); }
-    std::uint64_t w_;
+    bool get_(size_type i) const { return NW == 1 ? ((w_[0] >> i) & 1) : ((w_[i >> 6] >> (i & 63)) & 1); }
+    void put_(size_type i, bool v) {
+        std::uint64_t m = std::uint64_t(1) << (i & 63);
+        int k = NW == 1 ? 0 : (int)(i >> 6);
+        if (v) w_[k] |= m; else w_[k] &= ~m;
+    }
+    void zero_() { for (int k = 0; k < NW; ++k) w_[k] = 0; }
+    void trim_() {   // bits at and above size are kept zero
+        for (int k = 0; k < NW; ++k) {
+            size_type lo = 64 * size_type(k);
+            if (n_ <= lo) w_[k] = 0;
+            else if (n_ < lo + 64) w_[k] &= (std::uint64_t(1) << (n_ - lo)) - 1;
+        }
+    }
+    std::uint64_t w_[NW];
     size_type n_;
 };
 }
